@@ -104,6 +104,11 @@ pub fn rty_of(t: &syn::Type, generics: &[(String, String)]) -> RTy {
         "<Self::PublicKeyasGroup>::Scalar" | "<Self::SignatureasGroup>::Scalar" | "<<CasPairing>::PublicKeyasGroup>::Scalar"
         | "<<CasPairing>::SignatureasGroup>::Scalar" | "Scalar" => return RTy::Scalar,
         "Self" if generics.iter().any(|(g, b)| g == "Self" && (b == "[u8]" || b == "Vec<u8>")) => return RTy::Bytes,
+        // `type Output = Self` of the operator impls
+        "Self::Output" if generics.iter().any(|(g, b)| g == "Self" && crate::wrappers::wrapper(b).is_some()) => {
+            let b = generics.iter().find(|(g, _)| g == "Self").unwrap().1.clone();
+            return RTy::W(b);
+        }
         "Self::SecretKeyShare" | "<CasPairing>::SecretKeyShare" => return RTy::SkShare,
         "Self::PublicKeyShare" | "<CasPairing>::PublicKeyShare" => return RTy::PkShare,
         "Self::SignatureShare" | "<SelfasPairing>::SignatureShare" | "<CasPairing>::SignatureShare" => return RTy::SigShare,
